@@ -10,6 +10,31 @@ PROPS = {
         profiles=dict(quick=[('pure', 6000, 1)], thorough=[('pure', 40000, 8)]),
         explanation='round-trip theorems over all values (Props.C17); model tied to the Go (de)serialisers by differential execution of generated and mutated structures',
         assumptions=['field lengths < 2^32 (TLV < 2^16) as explicit hypotheses', 'key-file (s-expression) round trip: see Props.C17 notes']),
+    'C14': dict(
+        module='Props.C14', level='proof',
+        profiles=dict(quick=[('pure', 4000, 1), ('frag', 12, 1)], thorough=[('pure', 30000, 4), ('frag', 60, 8)]),
+        explanation='theorems for every message, size and arrival sequence (Props.C14: bounded, lossless, only complete streams, exactly once); model tied to fragmentation.go by function-level differential runs (fragment/parseFragment/receiveFragment) and whole-session runs with hostile fragment arrivals; Go oracle: size bound, reference reassembly, no double delivery',
+        assumptions=['instance tags < 2^32', 'piece count <= 65535 (16-bit index/total of the wire format; beyond it the message is handed out whole)', 'encoded messages contain no comma (Proofs.B64)']),
+    'C07': dict(
+        module='Props.C07', level='proof',
+        profiles=dict(quick=[('c07', 400, 1)], thorough=[('c07', 400, 1), ('life', 150, 4)]),
+        explanation='verified exhaustive exploration of an abstract two-party AKE system (Otr.AkeAbs, explore_sound) decides liveness for every start pattern and every delivery schedule; the abstraction is tied to the implementation by running every maximal schedule of every pattern on the real code (both versions) and comparing final states',
+        assumptions=['time is frozen within an exchange (the 60 s repeat-query window does not expire)', 'cryptographic checks are abstracted to identifier equality', 'known finding: simultaneous start deadlocks (test-pinned)']),
+    'C05': dict(
+        module='Props.C05', level='proof',
+        profiles=dict(quick=[('sched', 12, 1), ('frag', 6, 1)], thorough=[('sched', 60, 8), ('schedx', 300, 1), ('life', 150, 4)]),
+        explanation='theorem over all histories of the key-management context (Props.C05: once accepted, a (key ids, counter) triple is rejected for ever; sender counters strictly increase); model tied to key_management.go / data_message.go by whole-session differential runs; Go oracle replays recorded data messages at later points (same pair, after rotations) and checks nothing is delivered or answered',
+        assumptions=['key ids < 2^32, counters < 2^64 (no wrap-around)', 'cross-session replay relies on fresh DH keys per session (not a theorem; exercised by the life profile)']),
+    'C09': dict(
+        module='Props.C09', level='proof',
+        profiles=dict(quick=[('sched', 12, 1)], thorough=[('sched', 60, 8), ('schedx', 300, 1)]),
+        explanation='theorems over all histories (Props.C09: every disclosed key belongs to a retired pair that can never be accepted under again; used keys are queued when their pair retires and the next data message carries the whole queue); Go oracle recomputes the receiving MAC keys of the discloser window from the real DH keys at every outgoing data message and tracks keys used to accept messages until disclosed',
+        assumptions=['the MAC key of a pair is identified by the pair (same DH keys within a session)']),
+    'C19': dict(
+        module='Props.C19', level='proof',
+        profiles=dict(quick=[('sched', 12, 1)], thorough=[('sched', 80, 8), ('life', 150, 4)]),
+        explanation='theorems over all histories (Props.C19: at most 4 counters and 4 MAC-history entries, reveal queue at most 3 keys per message accepted since the last send and emptied by each send); Go oracle measures counters, MAC history, reveal queue, resend queue, injections and the reveal field of every emitted message along long runs',
+        assumptions=['session-wide constant for the reveal queue is a two-party fact, measured not proved', 'heap size beyond the modelled lists is not measured here (see C08)']),
 }
 
 # properties not claimed yet (kept current; each is moved into PROPS when its check exists)
